@@ -144,15 +144,18 @@ def build(sp, omit=(), labels=None, originals=None, into=None):
     lab = (lambda t: fresh(t)) if labels is None else (lambda t: fresh(labels[t]))
     types = [lab(t) for t in sp['types']]
     st = style(sp)
+    # numbers computed with numpy are numpy scalars / 0-d arrays, not Python floats: every third spec hands them over as such
+    carrier = [float, np.float64, lambda v: np.array(v, dtype=float)][(spec_hash(sp) // 7) % 3] if not isinstance(sp['kT'], int) else (lambda v: v)
+    num = lambda v: v if isinstance(v, int) else carrier(v)
     if into is not None:
         s = into
-        s.kT = sp['kT']
+        s.kT = num(sp['kT'])
     elif sp.get('kT_via') == 'assign':
         # the temperature is assigned after construction, as a temperature sweep on one System does
         s = pyPRISM.System(types)
-        s.kT = sp['kT']
+        s.kT = num(sp['kT'])
     else:
-        s = pyPRISM.System(types, kT=sp['kT'])
+        s = pyPRISM.System(types, kT=num(sp['kT']))
     if st == 'replace' and into is None:
         # the documented public containers replaced wholesale by newly created ones, filled afterwards
         s.density = pyPRISM.Density([lab(t) for t in sp['types']])
@@ -174,12 +177,12 @@ def build(sp, omit=(), labels=None, originals=None, into=None):
                 seen += grp
                 if len(grp) > 1:
                     key = [lab(u) for u in grp]
-                    table[key if len(seen) % 2 else tuple(key)] = vals[t]
+                    table[key if len(seen) % 2 else tuple(key)] = num(vals[t])
                 else:
-                    table[lab(t)] = vals[t]
+                    table[lab(t)] = num(vals[t])
         else:
             for t in todo:
-                table[lab(t)] = vals[t]
+                table[lab(t)] = num(vals[t])
     for name, table, mk in (('pot', s.potential, mk_pot), ('clo', s.closure, mk_clo), ('om', s.omega, mk_om)):
         items = [(key, spec) for key, spec in sp[name].items() if '%s:%s' % (name, key) not in omit]
         done = set()
